@@ -41,6 +41,17 @@ func newInteger(lex pathLexer, text string) ast.Node {
 	return ast.NewInteger(text)
 }
 
+// anyLevel returns level, the value of the INT_P token text given as a level
+// of .**, or reports a parse error if it could not be converted or is not
+// below [math.MaxUint32], the value that [ast.NewAny] reserves for "last".
+func anyLevel(lex pathLexer, text string, level int64, err error) int {
+	if err != nil || level >= math.MaxUint32 {
+		lex.Error(fmt.Sprintf("level %v of .** is out of range", text))
+		return 0
+	}
+	return int(level)
+}
+
 // newNumeric returns a numeric node for the text of a NUMERIC_P token, or
 // reports a parse error if its value does not fit in a float64.
 func newNumeric(lex pathLexer, text string) ast.Node {
